@@ -3,7 +3,10 @@ import InToto.Verify
 # Deciding whether a supply chain was carried out honestly (hypotheses of `honest_chain_verifies`)
 
 Definitions only; the theorems are in `Proofs/Honest.lean`. Every step has one
-authorised functionary whose link is in place, validly signed and names the step.
+authorised functionary whose link is in place - under the id of the authorised key
+(as `in-toto-record` names it) or under the id of one of that key's subkeys (as
+`in-toto-run` names it when a gpg signing subkey made the signature) - validly
+signed and naming the step.
 -/
 namespace InToto
 
@@ -11,12 +14,14 @@ namespace InToto
 structure StepRecord where
   name : Str
   kid : Str
+  /-- the key id in the name of the link file: `kid` or one of the key's subkeys -/
+  fileId : Str
   keyJ : JVal
   md : Metadata
   lk : Link
 
-def loadedOf (rs : List StepRecord) : Dict Str (Dict Str Metadata) := rs.map (fun r => (r.name, [(r.kid, r.md)]))
-def chainOf (rs : List StepRecord) : Dict Str (Dict Str Link) := rs.map (fun r => (r.name, [(r.kid, r.lk)]))
+def loadedOf (rs : List StepRecord) : Dict Str (Dict Str Metadata) := rs.map (fun r => (r.name, [(r.fileId, r.md)]))
+def chainOf (rs : List StepRecord) : Dict Str (Dict Str Link) := rs.map (fun r => (r.name, [(r.fileId, r.lk)]))
 def linksOf (rs : List StepRecord) : Dict Str Link := rs.map (fun r => (r.name, r.lk))
 
 /-- The record of an honestly performed step, if the step was performed that way. -/
@@ -26,18 +31,26 @@ def honestRecord (w : World) (l : Layout) (dir : Str) (step : Step) : Option Ste
     if step.threshold = 1 then
       match Dict.get? l.keys kid with
       | some keyJ =>
-        -- no link file under the id of a subkey of that key (a gpg key bundle may list subkeys)
-        if (subkeyIds (some keyJ)).all (fun sid => (loadFile w (pathJoin dir (linkFileName name sid))).isNone) = true ∧
-            keyidOf keyJ = .ok kid then
-          match loadFile w (pathJoin dir (linkFileName name kid)) with
-          | some (.ok md) =>
-            if md.verifySignature w.S w.nowSec keyJ = .ok then
-              match md.getPayload with
-              | .ok (.link lk) =>
-                if lk.name = some name then some { name := name, kid := kid, keyJ := keyJ, md := md, lk := lk } else none
+        if keyidOf keyJ = .ok kid then
+          -- the ids under which the verifier looks: the key's own and those of its subkeys (a gpg key bundle may list
+          -- some); a link file lies under exactly one of them
+          match (kid :: subkeyIds (some keyJ)).filter
+              (fun cid => (loadFile w (pathJoin dir (linkFileName name cid))).isSome) with
+          | fid :: more =>
+            if more.all (fun x => x = fid) = true then
+              match loadFile w (pathJoin dir (linkFileName name fid)) with
+              | some (.ok md) =>
+                if md.verifySignature w.S w.nowSec keyJ = .ok then
+                  match md.getPayload with
+                  | .ok (.link lk) =>
+                    if lk.name = some name then
+                      some { name := name, kid := kid, fileId := fid, keyJ := keyJ, md := md, lk := lk }
+                    else none
+                  | _ => none
+                else none
               | _ => none
             else none
-          | _ => none
+          | [] => none
         else none
       | none => none
     else none
